@@ -141,13 +141,13 @@ CHECKS = {
   text="Proof (Lean 4) on the same machine with fault plans: a failed job makes the caller's outcome `raised` (fail_loud); "
        "under every fault plan: no deadlock, locks free in every final state, every submitted job finishes exactly once (a failure "
        "does not cancel the others), a job with a faulting step is recorded as failed (the same source-tied block program as C04), outcome ok implies every block completed its "
-       "corrected (and parameter) write; a faulting io step releases its lock; CLI exit status 0 iff nothing raised (9 theorems). Tied to the code by fault enumeration through "
+       "corrected (and parameter) write; a faulting io step releases its lock; CLI exit status 0 iff nothing raised - with the commands' handler as a tree of log / if / abort steps, under every assignment of the conditions it could look at (command_exit_zero_iff, allAbort_exit; conditional_abort_fails_silently for a handler that aborts on quiet runs only) (13 theorems); source-tie: fuse, compare and stats each end in one try with the single handler `except Exception: log; raise click.Abort()` and no inner handler (src_C09_handlers). Tied to the code by fault enumeration through "
        "the interposed datasets/model hooks: every (site in source read, reference read, fit, apply, corrected write, parameter "
        "write) x block x threads 1/2/4 (exhaustive in the thorough tier, a seeded third in the quick tier): the API raises, "
        "terminates within a watchdog, all four datasets closed, all locks free, reader reusable with the reference result; "
        "multi-thread traces replayed by the Lean machine with the same fault plan (outcome raised, locks free, all other blocks "
        "complete); CLI exit codes; compare and stats analogues.",
-  note="Faults inside GDAL that do not surface as Python exceptions are outside. The watchdog bound (60 s) stands for liveness. Since round 8: every fourth fault plan writes its outputs through the Erdas Imagine or ENVI driver. Round 9: CLI compare / stats exit status under block failures; worker threads alive after a failed call are a failing input (and are joined before the datasets are closed); failure of the last tile of the valid-data window pre-pass on an all-valid parameter image; an interpreter crash of the check process is reported as a violation. Round 10: 3 input(s) found by a bug-hunting sub-agent on the unchanged code (harness/found/C09_demo*.py) are replayed by this check on every run; those that violate the property are listed in known_findings.json by script name (repaired ones must stay quiet). Round 11: blocks unreadable at the GDAL level (the compressed bytes of a tile zeroed in a parameter image and in a source). Round 12: the CLI fault legs run under no flag, -v, -q, -vv and -v -q -v (the exit status does not depend on the verbosity).",
+  note="Faults inside GDAL that do not surface as Python exceptions are outside. The watchdog bound (60 s) stands for liveness. Since round 8: every fourth fault plan writes its outputs through the Erdas Imagine or ENVI driver. Round 9: CLI compare / stats exit status under block failures; worker threads alive after a failed call are a failing input (and are joined before the datasets are closed); failure of the last tile of the valid-data window pre-pass on an all-valid parameter image; an interpreter crash of the check process is reported as a violation. Round 10: 3 input(s) found by a bug-hunting sub-agent on the unchanged code (harness/found/C09_demo*.py) are replayed by this check on every run; those that violate the property are listed in known_findings.json by script name (repaired ones must stay quiet). Round 11: blocks unreadable at the GDAL level (the compressed bytes of a tile zeroed in a parameter image and in a source). Round 12: the CLI fault legs run under no flag, -v, -q, -vv and -v -q -v (the exit status does not depend on the verbosity); the handlers are extracted from the source text and modelled.",
   tech="Lean 4 proof about the machine under fault plans + exhaustive single-fault enumeration on the real code",
   ref='7 C09', category='proof'),
  'C10': dict(
@@ -166,7 +166,7 @@ CHECKS = {
   text="Proof (Lean 4) over exact rationals: block sums are additive over any split of the pixels, accumulating the blocks of any "
        "partition gives the whole-image sums, in any completion order (sums_additive_over_partition, fold_perm); N = number of "
        "jointly valid processing pixels; RMSE^2 = mean squared difference; r2 = squared Pearson correlation (centred-sum identity); "
-       "rRMSE^2 = RMSE^2/mean(ref)^2 (15 theorems); source-tie: bandStats is get_band_stats' expressions with the square roots "
+       "rRMSE^2 = RMSE^2/mean(ref)^2; the Mean entry of a statistic is the band average when every band's value is defined and undefined exactly when some band's is (meanRow_defined, meanRow_none_iff; skipping_mean_differs) (20 theorems); source-tie: the Mean entry is the source's fold - start at 0, add with +, divide by the number of bands (src_C11_mean_row) -; bandStats is get_band_stats' expressions with the square roots "
        "squared away, blockSums adds what get_block_sums adds per pixel; END TO END (Props/E2ECompare.lean): for every pair, geometry "
        "and block shape, accumulating the seven sums of the blocks - each computed from what that block read, with the source "
        "averaged onto the reference grid per block - gives exactly the sums of the single-block run "
@@ -176,7 +176,7 @@ CHECKS = {
        "row = band average, CLI JSON = API.",
   note="Known findings (open): D7 forced finer processing grid with a non-nearest kernel (block-edge effects), D10 duplicate band "
        "names collapse rows, D11 N partition-dependent in tie geometry on a forced finer grid. Square roots are not modelled "
-       "(squares compared). GDAL cubic/cubic_spline up-sampling is not modelled (those cases only get the partition check). Round 9: near-identical pairs at 16-bit magnitudes (5000 / 40000 differing by 1-10 counts; reflectances differing by 1e-4) against the float64 definition of RMSE / rRMSE. Round 10: 3 input(s) found by a bug-hunting sub-agent on the unchanged code (harness/found/C11_demo*.py) are replayed by this check on every run; those that violate the property are listed in known_findings.json by script name (repaired ones must stay quiet). Round 11: a 4100 x 4100 pair with more than 2^24 (and an odd number of) jointly valid pixels: N exact for one block and for many. Round 12: bands with undefined statistics (no valid pixel in a source / reference band, a band constant in both images) beside ordinary bands: N by definition, Mean the (undefined) average of the rows.",
+       "(squares compared). GDAL cubic/cubic_spline up-sampling is not modelled (those cases only get the partition check). Round 9: near-identical pairs at 16-bit magnitudes (5000 / 40000 differing by 1-10 counts; reflectances differing by 1e-4) against the float64 definition of RMSE / rRMSE. Round 10: 3 input(s) found by a bug-hunting sub-agent on the unchanged code (harness/found/C11_demo*.py) are replayed by this check on every run; those that violate the property are listed in known_findings.json by script name (repaired ones must stay quiet). Round 11: a 4100 x 4100 pair with more than 2^24 (and an odd number of) jointly valid pixels: N exact for one block and for many. Round 12: bands with undefined statistics (no valid pixel in a source / reference band, a band constant in both images) beside ordinary bands: N by definition, Mean the (undefined) average of the rows; every Mean entry is also compared with the model's meanRow (driver op `meanrow`).",
   tech="Lean 4 proof (list induction, permutation invariance of a commutative fold, field algebra) + differential runs", ref='7 C11'),
  'C12': dict(
   text="Proof (Lean 4): tile accumulators are additive, tiling- and completion-order-invariant (tile_partition_invariant, "
@@ -272,7 +272,7 @@ CHECKS = {
        "combine_profiles vs the model on generated profiles.",
   note="Partial: WarpedVRT (north-up re-projection, CRS changes), rotated and cross-CRS inputs are exercised, not modelled; "
        "south-up storage is only generated on dyadic geometry (a flipped decimal grid is an ulp off the north-up one)."
-       ' Known finding D21 (open): with different CRSs and the source grid as processing grid the corrected image is written on the re-projected source grid. Since round 8: bands paired by hand against the wavelengths with force=True - the corrected bands carry the tags of the bands they were paired with. Round 9: numeric settings (thresholds 1/3, 0.123456789; the computed block memory) must parse back exactly from the FUSE_* tags of both outputs. Round 10: 3 input(s) found by a bug-hunting sub-agent on the unchanged code (harness/found/C18_demo*.py) are replayed by this check on every run; those that violate the property are listed in known_findings.json by script name (repaired ones must stay quiet). Round 11: a south-up source in another CRS than the reference stays on the north-up source grid. Round 12: creation_options left out / {} / None in the output profile (byte outputs with 3 and 4 bands included).',
+       ' Known finding D21 (open): with different CRSs and the source grid as processing grid the corrected image is written on the re-projected source grid. Since round 8: bands paired by hand against the wavelengths with force=True - the corrected bands carry the tags of the bands they were paired with. Round 9: numeric settings (thresholds 1/3, 0.123456789; the computed block memory) must parse back exactly from the FUSE_* tags of both outputs. Round 10: 3 input(s) found by a bug-hunting sub-agent on the unchanged code (harness/found/C18_demo*.py) are replayed by this check on every run; those that violate the property are listed in known_findings.json by script name (repaired ones must stay quiet). Round 11: a south-up source in another CRS than the reference stays on the north-up source grid. Round 12: creation_options left out / {} / None in the output profile (byte outputs with 3 and 4 bands included); the profile-merge tie (src_C13_profiles) now also serves this property.',
   tech="Lean 4 proof of the decision logic (+ corollary of the matcher theorem) + differential runs", ref='7 C18'),
  'C19': dict(
   text="Proof (Lean 4) of the front-end logic: per-key precedence command line > file > default (merge_precedence), file keys "
